@@ -7,7 +7,7 @@ import random
 import struct
 from typing import Any, Callable, Dict, Iterator, List, Optional
 
-from core import Case, Prop, SelfCheckFailure
+from core import Case, Prop, SelfCheckFailure, pack_stable
 from gen import hx, unhx, rbytes
 
 from spacepackets.cfdp.defs import ConditionCode, ChecksumType, DeliveryCode, FileStatus, Direction
@@ -21,6 +21,7 @@ from spacepackets.crc import CRC16_CCITT_FUNC
 from props.c06_fixed import (
     _conf, _pdu_common, _repack, _pack_fails, _enum, spec_pdu, spec_hdr, with_crc, fss, rand_conf, all_confs, fss_pool,
     fss_val, fss_bad, rand_val, vmax, bad_conf_cases, CONF_KEYS, COND_MEMBERS, U32, U64,
+    _built, _isolated, _eq_op, contrast_conf,
 )
 from props.c08 import (
     _build, _fsresp, _fsresp_fields, _name, rand_utf8, held_concrete, STATUS_NAT, SNP, UTF8_GOOD, UTF8_BAD,
@@ -81,6 +82,7 @@ def _check_roundtrip(p, cls, fields, raw: bytes, f, norm: Callable = lambda x: x
 
 def _decoded(p, fields, raw: bytes):
     f = fields(p)
+    _isolated(p, fields, f)
     _need(f["packet_len"] <= len(raw), "decoded PDU is longer than the buffer it was decoded from")
     r = _repack(p)
     if r is not None:
@@ -98,21 +100,15 @@ def _after_setter(p, fields, check):
     f = fields(p)
     r = _repack(p)
     if r is not None:
+        _need(pack_stable(p, type(p).__name__ + ".pack()") == unhx(r), "pack() twice gives different octets")
         check(p, unhx(r))
     f["raw"] = r
     return f
 
 
-def _eq_op(build):
-    def op(a):
-        x, y = build(a["a"]), build(a["b"])
-        return {"eq": bool(x == y), "eq_rev": bool(y == x)}
-    return op
-
-
 # ---- EOF ----
-def _eof(a) -> EofPdu:
-    return EofPdu(pdu_conf=_conf(a), file_checksum=unhx(a["checksum"]), file_size=a["size"],
+def _eof(a, conf=None) -> EofPdu:
+    return EofPdu(pdu_conf=_conf(a) if conf is None else conf, file_checksum=unhx(a["checksum"]), file_size=a["size"],
                   fault_location=_fault(a["fault"]), condition_code=_enum(ConditionCode, a["cond"]))
 
 
@@ -131,20 +127,21 @@ def _eof_check(p, raw: bytes):
 
 
 def op_eof_new(a):
-    return _eof_fields(_eof(a), 4)
+    return _built(_eof, a, "EofPdu(...)", lambda p: _eof_fields(p, 4))
 
 
 def op_eof_pack(a):
-    p = _eof(a)
-    _need(int(p.directive_type) == 4 and int(p.direction) == int(Direction.TOWARDS_RECEIVER),
-          "EOF PDU constructed with another directive code / direction")
-    f = _eof_check(p, bytes(p.pack()))
-    f["raw"] = hx(p.pack())
-    return f
+    def use(p):
+        _need(int(p.directive_type) == 4 and int(p.direction) == int(Direction.TOWARDS_RECEIVER),
+              "EOF PDU constructed with another directive code / direction")
+        f = _eof_check(p, pack_stable(p, "EofPdu.pack()"))
+        f["raw"] = hx(p.pack())
+        return f
+    return _built(_eof, a, "EofPdu(...).pack()", use)
 
 
 def op_eof_pack_fails(a):
-    r = _pack_fails(_eof(a))
+    r = _built(_eof, a, "EofPdu(...).pack()", _pack_fails)
     r.pop("_raw", None)
     return r
 
@@ -171,11 +168,11 @@ def op_eof_set(a):
 
 
 # ---- Finished ----
-def _fin(a) -> FinishedPdu:
+def _fin(a, conf=None) -> FinishedPdu:
     params = FinishedParams(condition_code=_enum(ConditionCode, a["cond"]), delivery_code=_enum(DeliveryCode, a["delivery"]),
                             file_status=_enum(FileStatus, a["status"]),
                             file_store_responses=[_fsresp(r) for r in a["responses"]], fault_location=_fault(a["fault"]))
-    return FinishedPdu(pdu_conf=_conf(a), params=params)
+    return FinishedPdu(pdu_conf=_conf(a) if conf is None else conf, params=params)
 
 
 def _fin_fields(p: FinishedPdu, code=None):
@@ -213,16 +210,17 @@ def _fin_check(p, raw: bytes):
 
 
 def op_fin_new(a):
-    return _fin_fields(_fin(a), 5)
+    return _built(_fin, a, "FinishedPdu(...)", lambda p: _fin_fields(p, 5))
 
 
 def op_fin_pack(a):
-    p = _fin(a)
-    _need(int(p.pdu_file_directive.directive_type) == 5 and int(p.direction) == int(Direction.TOWARDS_SENDER),
-          "Finished PDU constructed with another directive code / direction")
-    f = _fin_check(p, bytes(p.pack()))
-    f["raw"] = hx(p.pack())
-    return f
+    def use(p):
+        _need(int(p.pdu_file_directive.directive_type) == 5 and int(p.direction) == int(Direction.TOWARDS_SENDER),
+              "Finished PDU constructed with another directive code / direction")
+        f = _fin_check(p, pack_stable(p, "FinishedPdu.pack()"))
+        f["raw"] = hx(p.pack())
+        return f
+    return _built(_fin, a, "FinishedPdu(...).pack()", use)
 
 
 def op_fin_unpack(a):
@@ -249,10 +247,10 @@ def _options(v):
     return None if v is None else [_build(h) for h in v]
 
 
-def _md(a) -> MetadataPdu:
+def _md(a, conf=None) -> MetadataPdu:
     params = MetadataParams(closure_requested=bool(a["closure"]), checksum_type=_enum(ChecksumType, a["ctype"]),
                             file_size=a["size"], source_file_name=_opt_name(a["src"]), dest_file_name=_opt_name(a["dst"]))
-    return MetadataPdu(pdu_conf=_conf(a), params=params, options=_options(a["options"]))
+    return MetadataPdu(pdu_conf=_conf(a) if conf is None else conf, params=params, options=_options(a["options"]))
 
 
 def _name_field(get) -> Optional[str]:
@@ -300,20 +298,21 @@ def _md_check(p, raw: bytes):
 
 
 def op_md_new(a):
-    return _md_fields(_md(a), 7)
+    return _built(_md, a, "MetadataPdu(...)", lambda p: _md_fields(p, 7))
 
 
 def op_md_pack(a):
-    p = _md(a)
-    _need(int(p.pdu_file_directive.directive_type) == 7 and int(p.direction) == int(Direction.TOWARDS_RECEIVER),
-          "Metadata PDU constructed with another directive code / direction")
-    f = _md_check(p, bytes(p.pack()))
-    f["raw"] = hx(p.pack())
-    return f
+    def use(p):
+        _need(int(p.pdu_file_directive.directive_type) == 7 and int(p.direction) == int(Direction.TOWARDS_RECEIVER),
+              "Metadata PDU constructed with another directive code / direction")
+        f = _md_check(p, pack_stable(p, "MetadataPdu.pack()"))
+        f["raw"] = hx(p.pack())
+        return f
+    return _built(_md, a, "MetadataPdu(...).pack()", use)
 
 
 def op_md_pack_fails(a):
-    r = _pack_fails(_md(a))
+    r = _built(_md, a, "MetadataPdu(...).pack()", _pack_fails)
     r.pop("_raw", None)
     return r
 
@@ -613,6 +612,45 @@ class C06Var(Prop):
         yield from self.fin_cases(rng, thorough)
         yield from self.md_cases(rng, thorough)
         yield from self.random_octets(rng, thorough)
+        yield from self.leak_cases(rng, thorough)
+
+    # ---- state leaking between calls / objects ----
+    def leak_cases(self, rng, thorough):
+        """as in part 'fixed': one configuration (one PduConfig instance in the ops) through the three constructors back
+        to back, then the configuration that differs in every field, then the first again; the decoders on inputs of the
+        independent encoder in the same order (the ops look again at the objects decoded by the previous calls)"""
+        for i in range(600 if thorough else 30):
+            a = rand_conf(rng)
+            b = contrast_conf(a)
+            for c in (a, b, a):
+                cond = rng.choice(COND_MEMBERS)
+                fault = None if cond in NO_FAULT_CONDS else rand_fault(rng)
+                fh = None if fault is None else hx(fault)
+                cs, size = rand_checksum(rng), fss_val(rng, c["large"])
+                yield Case({"op": "eof_pack", **c, "checksum": hx(cs), "size": size, "fault": fh, "cond": cond}, "valid",
+                           tag="shared-config")
+                rs = [rand_resp(rng) for _ in range(i % 3)]
+                dc, fs = rng.randint(0, 1), rng.randint(0, 3)
+                yield Case({"op": "fin_pack", **c, "cond": cond, "delivery": dc, "status": fs, "responses": rs, "fault": fh},
+                           "valid", tag="shared-config")
+                src, dst, opts = rand_name(rng), rand_name(rng), rng.choice([None, rand_options(rng, 1 + i % 2)])
+                closure, ctype = bool(i % 2), rng.choice(CHECKSUM_TYPES)
+                yield Case({"op": "md_pack", **c, "closure": closure, "ctype": ctype, "size": size, "src": hx(src),
+                            "dst": hx(dst), "options": opts}, "valid", tag="shared-config")
+                yield Case({"op": "eof_new", **c, "checksum": hx(cs), "size": size, "fault": fh, "cond": cond}, "valid",
+                           tag="shared-config")
+            for c in (a, b, a):
+                cond = rng.choice(COND_MEMBERS)
+                fault = None if cond in NO_FAULT_CONDS else rand_fault(rng)
+                size = fss_val(rng, c["large"])
+                yield from dec_cases("eof_unpack", spec_eof(c, cond, rand_checksum(rng), size, fault), rng, c,
+                                     "isolation-pair", False)
+                rs = [rand_resp(rng) for _ in range(1 + i % 2)]
+                yield from dec_cases("fin_unpack", spec_fin(c, cond, rng.randint(0, 1), rng.randint(0, 3), rs, fault), rng, c,
+                                     "isolation-pair", False)
+                opts = rng.choice([None, rand_options(rng, 2)])
+                yield from dec_cases("md_unpack", spec_md(c, bool(i % 2), rng.choice(CHECKSUM_TYPES), size, rand_name(rng),
+                                                          rand_name(rng), opts), rng, c, "isolation-pair", False)
 
     # ---- EOF ----
     def eof_cases(self, rng, thorough):
